@@ -9,15 +9,18 @@ import zlib
 from email.utils import parsedate_to_datetime
 from http.cookies import SimpleCookie
 
+from harness import json_common as JC
 from harness.core import hx, unhx, Violation, excname
 
 LEAN_TARGETS = ["PoorProofs.Props.C13"]
 AUDIT_IMPORTS = ["PoorProofs.Props.C13"]
-LEAN_FILES = ["PoorModel/Base64.lean", "PoorProofs/Lemmas/Base64.lean", "PoorModel/Session.lean", "PoorProofs/Props/C13.lean"]
+LEAN_FILES = ["PoorModel/Base64.lean", "PoorProofs/Lemmas/Base64.lean", "PoorModel/Session.lean", "PoorProofs/Props/C13.lean",
+              "PoorModel/Json.lean", "PoorProofs/Lemmas/Json.lean", "PoorProofs/Props/JsonCodec.lean"]
 THEOREMS = ["Poor.Props.C13.hidden_involutive", "Poor.Props.C13.C13_roundtrip", "Poor.Props.C13.C13_errors",
             "Poor.Props.C13.C13_reject_partial", "Poor.Props.C13.destroy_destroyed",
             "Poor.Props.C13.write_keeps_destroyed", "Poor.Props.C13.C13_destroyed_expired", "Poor.Props.C13.C13_attrs",
-            "Poor.Base64.decode_encode", "Poor.Props.C13.C13_roundtrip_b64", "Poor.Props.C13.C13_value_nonempty"]
+            "Poor.Base64.decode_encode", "Poor.Props.C13.C13_roundtrip_b64", "Poor.Props.C13.C13_value_nonempty",
+            "Poor.Props.C13.C13_roundtrip_json", "Poor.Props.JsonCodec.loadBytes_dumpBytes"]
 TRUSTED_BASE = ["model Poor.Session hand-written from session.py:27-55, 238-312",
                 "json and bz2/zlib are parameters of the model with round-trip hypotheses (sampled here against the real modules); "
                 "base64 is modelled (Poor.Base64: the encoder and the non-strict decoder loop of binascii) and its round trip proved",
@@ -62,6 +65,11 @@ def rand_cfg(rng):
 
 def generate(rng, tier):
     cases = []
+    # the JSON layer of the cookie: what write() stores (dumps of a dict) and what load() may be handed
+    for text in JC.HAND[:60] + JC.rand_texts(rng, 2500 if tier == "thorough" else 400, "dict"):
+        cases.append("C13 jb " + JC.tok_text(text))
+    for _ in range(300 if tier == "thorough" else 60):
+        cases.append("C13 jb " + hx(bytes(rng.getrandbits(8) for _ in range(rng.randrange(1, 12)))))
     n = 2000 if tier == "thorough" else 300
     for _ in range(n):
         key = hashlib.sha512(bytes(rng.getrandbits(8) for _ in range(rng.randrange(1, 20)))).digest()
@@ -123,7 +131,13 @@ def untok_secret(t):
 
 def to_model(case):
     t = case.split()
+    if t[1] == "jb":
+        return ["JS load " + t[2]]
     return [] if t[1] == "rt" else [case]
+
+
+def canon_model(line):
+    return line
 
 
 def parse_cfg(t):
@@ -191,6 +205,24 @@ def observe(case):
             return " | ".join(run_attrs(case)) or "-"
         if t[1] == "b64e":
             return hx(base64.b64encode(unhx(t[2])).decode())
+        if t[1] == "jb":
+            # `loads(bytearray)` as PoorSession.load calls it; the model knows the UTF-8 path only
+            import json
+            raw = bytearray(unhx(t[2]))
+            if json.detect_encoding(raw) != "utf-8":
+                return "unsupported"
+            try:
+                bytes(raw).decode("utf-8")
+            except UnicodeDecodeError:
+                try:
+                    bytes(raw).decode("utf-8", "surrogatepass")
+                    return "unsupported"         # encoded surrogates: json decodes bytes with surrogatepass
+                except UnicodeDecodeError:
+                    pass
+            try:
+                return JC.show(json.loads(raw))
+            except (ValueError, RecursionError):
+                return "error"
         if t[1] == "b64d":
             import binascii
             try:
@@ -223,6 +255,8 @@ def impl_hidden_with_key(key, text):
 def oracle(case):
     from poorwsgi.session import PoorSession, SessionError, hidden
     t = case.split()
+    if t[1] == "jb":
+        return []       # a tie of the JSON model to CPython's json, not a statement of the property
     if t[1] == "hidden":
         key, text = unhx(t[2]), unhx(t[3])
         if bytes(hidden(bytes(hidden(text, "pw")), "pw")) != text:
